@@ -5,9 +5,28 @@ import (
 	"encoding/json"
 	"fmt"
 	"os"
+	"runtime"
 	"strconv"
 	"strings"
+	"time"
 )
+
+// watchdog turns a run that hangs (a wait that testing/synctest does not consider durable, a real
+// deadlock) into prompt harness trouble (exit 2) with a goroutine dump, instead of stalling the
+// whole check until the orchestrator's worker time-out. It uses the real clock on purpose.
+func watchdog(seed uint64) *time.Timer {
+	limit := 300 * time.Second
+	if v, err := strconv.Atoi(os.Getenv("VERIF_RUN_TIMEOUT")); err == nil && v > 0 {
+		limit = time.Duration(v) * time.Second
+	}
+	return time.AfterFunc(limit, func() {
+		buf := make([]byte, 1<<20)
+		n := runtime.Stack(buf, true)
+		fmt.Fprintf(os.Stderr, "WATCHDOG seed=%d exceeded %v of real time\n%s\n", seed, limit, buf[:n])
+		fmt.Printf("HARNESS-TROUBLE: watchdog: run with seed %d exceeded %v of real time (goroutine dump on stderr)\n", seed, limit)
+		os.Exit(2)
+	})
+}
 
 // Harness is implemented by every simulator under /verif/harness.
 type Harness interface {
@@ -81,7 +100,9 @@ func Main(h Harness) string {
 		}
 		fmt.Fprintf(os.Stderr, "RUN seed=%d replay\n", p.Seed)
 		keepLog = true
+		wd := watchdog(p.Seed)
 		r := h.Exec(p)
+		wd.Stop()
 		emit(r, p, true)
 		return ""
 	}
@@ -108,7 +129,9 @@ func Main(h Harness) string {
 			emit(&Result{Seed: seed, Prop: prop, Steps: len(p.Steps)}, p, true)
 			continue
 		}
+		wd := watchdog(seed)
 		r := h.Exec(p)
+		wd.Stop()
 		emit(r, p, every > 0 && i%every == 0)
 	}
 	return ""
